@@ -7,7 +7,7 @@
 seed="$1"; tier="$2"; shift 2
 wt=$(mktemp -d /tmp/try_seed.XXXXXX); rmdir "$wt"
 git -C /repo worktree add --detach "$wt" HEAD -q || exit 2
-if ! git -C "$wt" apply "$seed/patch.diff"; then
+if ! git -C "$wt" apply "$seed/patch.diff" 2>/dev/null && ! git -C "$wt" apply --3way "$seed/patch.diff"; then
   echo "PATCH-DOES-NOT-APPLY"; git -C /repo worktree remove --force "$wt"; exit 2
 fi
 echo "== repository tests on the patched tree"
